@@ -15,6 +15,11 @@ CLAIMED = {
   "text": "The per-peer state machine of peers.rs (PeerState::{request_last_state, receive_last_state, request_last_state_proof, receive_last_state_proof, take, getters, require_new_*, when_sent_request}), the timeout predicate of get_peers_which_have_timeout (closure body lifted mechanically) and Status::{should_ban, should_warn, is_ok} are proved equal to a total transition table / timeout disjunction / ban range written from the diagram and the property statement, for every state and payload; payload frames (a last-state update never drops the proof or the outstanding request) are part of the postconditions.",
   "note": "One-step relation only: sequences are compositions of verified steps; DashMap-based wrappers in Peers (remove_peer, update_*) and the async dispatch are unverified surroundings; timestamps are assumed to be local clock readings <= 2^64-60001.",
   "ref": "DESIGN.md 5-C11"},
+
+ "C12": {
+  "text": "Gate-by-precondition on the real text of update_prove_state_to_child, commit_prove_state, SendLastStateProcess::execute (child fast path), ProveState::new_child/is_parent_of, check_verifiable_header, patched_is_valid, is_parent_of: the stored-tip writer Storage::update_last_state requires (a) a strictly greater total difficulty than the stored one and (b) evidence that difficulty, header and last-N window come from one trusted prove state; a child is trusted only if it is a PoW-valid, chain-root-committing child of a trusted tip whose chain root's total difficulty equals the proven parent's. Verus proves every call site discharges these for all inputs.",
+  "note": "Evidence predicates are uninterpreted and defined by introduction rules (trusted definitions from the property text); storage/peer table are shims; restart round-trip not covered. Found and fixed: S2 (53bb5c8).",
+  "ref": "DESIGN.md 5-C12"},
 }
 
 NOT_APPLICABLE = {
